@@ -61,11 +61,11 @@ func Yield(site int) {
 	}
 	n := counter.Add(1)
 	h := mix(s ^ mix(uint64(site)<<32^n))
-	switch h & 7 {
-	case 0, 1:
+	switch k := h & 63; {
+	case k < 16:
 		Yields.Add(1)
 		runtime.Gosched()
-	case 2:
+	case k == 16:
 		Yields.Add(1)
 		time.Sleep(time.Duration(1+(h>>8)%50) * time.Microsecond)
 	}
